@@ -13,11 +13,11 @@ struct CmpRec { int draw; int line; double a,b; };
 struct Monitor {
   double (*source)(size_t pos, void* ctx) = nullptr; void* ctx=nullptr;
   size_t next = 0; size_t horizon = 100000; bool stub_bb=false; long bb_calls=0;
-  double min_margin = 1e300; long ncmp = 0;
+  double min_margin = 1e300; double min_qmargin = 1e300; double min_smargin = 1e300; long ncmp = 0;
   std::vector<int> draw_sites; std::vector<unsigned> draw_ctx; std::vector<double> draw_vals;
   std::vector<CmpRec> cmps; bool log_cmps=false; int log_draw=-1;
   int stack[64]; int sp=0;
-  void reset(){ next=0; min_margin=1e300; ncmp=0; draw_sites.clear(); draw_ctx.clear(); draw_vals.clear(); cmps.clear(); sp=0; }
+  void reset(){ next=0; min_margin=1e300; min_qmargin=1e300; min_smargin=1e300; ncmp=0; draw_sites.clear(); draw_ctx.clear(); draw_vals.clear(); cmps.clear(); sp=0; }
 };
 struct HorizonExceeded {};
 extern Monitor mon;
@@ -28,6 +28,16 @@ inline bool CMP_LT(R a,R b,int l){ margin(a,b,l); return a<b; }
 inline bool CMP_LE(R a,R b,int l){ margin(a,b,l); return a<=b; }
 inline bool CMP_GT(R a,R b,int l){ margin(a,b,l); return a>b; }
 inline bool CMP_GE(R a,R b,int l){ margin(a,b,l); return a>=b; }
+// comparisons of the golden-section search: tracked separately (a near-tie there moves the located extremum by up to
+// the search tolerance, it does not change control flow elsewhere)
+inline void qmargin(R a,R b){ if (a==b) return; double m = std::fabs(a-b)/(std::fabs(a)+std::fabs(b)); if (m<mon.min_qmargin) mon.min_qmargin=m; }
+inline bool QCMP_LT(R a,R b,int){ qmargin(a,b); return a<b; } inline bool QCMP_LE(R a,R b,int){ qmargin(a,b); return a<=b; }
+inline bool QCMP_GT(R a,R b,int){ qmargin(a,b); return a>b; } inline bool QCMP_GE(R a,R b,int){ qmargin(a,b); return a>=b; }
+inline bool QCMP_EQ(R a,R b,int){ return a==b; } inline bool QCMP_NE(R a,R b,int){ return a!=b; }
+inline void smargin(R a, R b,int line){ mon.ncmp++; if (mon.log_cmps && (int)mon.next-1==mon.log_draw) mon.cmps.push_back({(int)mon.next-1,line,a,b}); if (a==b) return; double m = std::fabs(a-b)/(std::fabs(a)+std::fabs(b)); if (m<mon.min_smargin) mon.min_smargin=m; }
+inline bool SCMP_LT(R a,R b,int l){ smargin(a,b,l); return a<b; } inline bool SCMP_LE(R a,R b,int l){ smargin(a,b,l); return a<=b; }
+inline bool SCMP_GT(R a,R b,int l){ smargin(a,b,l); return a>b; } inline bool SCMP_GE(R a,R b,int l){ smargin(a,b,l); return a>=b; }
+inline bool SCMP_EQ(R a,R b,int){ return a==b; } inline bool SCMP_NE(R a,R b,int){ return a!=b; }
 inline bool CMP_EQ(R a,R b,int){ return a==b; }
 inline bool CMP_NE(R a,R b,int){ return a!=b; }
 inline void CALL(int l){ if(mon.sp<64) mon.stack[mon.sp]=l; mon.sp++; } inline void RET(){ mon.sp--; }
